@@ -171,6 +171,25 @@ pub struct HSut<A: HApi> {
 }
 
 impl<A: HApi> HSut<A> {
+    /// What the API itself reports (read-only view on a private copy): `contains` for every value of
+    /// the universe, `size`, `capacity`, and the iteration. `None` if a query panics.
+    fn api_contents(&self, state: &[u8]) -> Option<(BTreeSet<i128>, usize, usize, Vec<i128>)> {
+        let mut copy = ABuf::new(state, 2, 0x11);
+        guarded(|| {
+            let mut m = BTreeSet::new();
+            for v in &self.vals {
+                if A::call(copy.bytes_mut(), &Op::new("rhas", &[*v])) == "true" {
+                    m.insert(*v);
+                }
+            }
+            let size: usize = A::call(copy.bytes_mut(), &Op::new("rsize", &[])).parse().unwrap();
+            let cap: usize = A::call(copy.bytes_mut(), &Op::new("rcap", &[])).parse().unwrap();
+            let it = A::call(copy.bytes_mut(), &Op::new("iter", &[]));
+            let items: Vec<i128> = it.trim_matches(|c| c == '[' || c == ']').split(',').filter(|s| !s.is_empty()).map(|s| s.parse().unwrap()).collect();
+            (m, size, cap, items)
+        })
+        .ok()
+    }
     pub fn parse(&self, l: &str) -> Option<Op> {
         let mut it = l.split_whitespace();
         let name = it.next()?;
@@ -254,44 +273,54 @@ impl<A: HApi> Sut for HSut<A> {
     }
     fn oracle(&self, pre: &[u8], op: &Op, out: &OpOut, post: &[u8]) -> Vec<Finding> {
         let mut f = vec![];
+        let prop = if op.name == "fill" { "C07" } else { "C02" };
         if out.panic.is_some() {
+            if op.name != "init" {
+                f.push(Finding { property: prop, what: format!("`{}` panicked instead of answering: {}", op.text(), out.panic.clone().unwrap()) });
+            }
             return f;
         }
-        let dp = hdecode::<A>(pre);
         let dq = hdecode::<A>(post);
+        // C10: the format as read by the independent decoder
         let post_m = match dq.members() {
-            Ok(m) => m,
+            Ok(m) => Some(m),
             Err(e) => {
                 f.push(Finding { property: "C10", what: format!("after `{}`: {}", op.text(), e) });
-                return f;
+                None
             }
         };
-        // C10: every value is in the chain of its SipHash bucket, no value twice
-        let mut seen = BTreeSet::new();
-        for (b, _, v) in &post_m {
-            if dq.cap > 0 && (A::hash_of(*v) as u32 % dq.cap as u32) as usize != *b {
-                f.push(Finding { property: "C10", what: format!("after `{}`: value {} sits in bucket {} but hashes to {}", op.text(), v, b, A::hash_of(*v) as u32 % dq.cap as u32) });
-            }
-            if !seen.insert(*v) {
-                f.push(Finding { property: "C02", what: format!("after `{}`: value {} is stored twice", op.text(), v) });
+        if let Some(pm) = &post_m {
+            for (b, _, v) in pm {
+                if dq.cap > 0 && (A::hash_of(*v) as u32 % dq.cap as u32) as usize != *b {
+                    f.push(Finding { property: "C10", what: format!("after `{}`: value {} sits in bucket {} but hashes to {}", op.text(), v, b, A::hash_of(*v) as u32 % dq.cap as u32) });
+                }
             }
         }
-        let Ok(pre_m) = dp.members() else { return f };
-        let m: BTreeSet<i128> = pre_m.iter().map(|x| x.2).collect();
-        let q: BTreeSet<i128> = post_m.iter().map(|x| x.2).collect();
+        // C02: what the API reports before and after, against the reference set
+        let Some((m, msize, mcap, _)) = self.api_contents(pre) else { return f };
+        let Some((q, qsize, _, items)) = self.api_contents(post) else {
+            f.push(Finding { property: prop, what: format!("after `{}` a read-only query panics", op.text()) });
+            return f;
+        };
+        if let Some(pm) = &post_m {
+            let dm: BTreeSet<i128> = pm.iter().map(|x| x.2).filter(|v| self.vals.contains(v)).collect();
+            if dm != q || pm.len() != qsize {
+                f.push(Finding { property: "C10", what: format!("after `{}` the format decoder finds {:?} but the API reports {:?} (size {})", op.text(), dm, q, qsize) });
+            }
+        }
         let mut exp = m.clone();
         let x = op.args.first().copied().unwrap_or(0);
         let expected: Option<String> = match op.name {
-            "ins" => Some((m.len() < dp.cap && exp.insert(x)).to_string()),
+            "ins" => Some((msize < mcap && exp.insert(x)).to_string()),
             "rem" => Some(exp.remove(&x).to_string()),
             "has" | "rhas" => Some(m.contains(&x).to_string()),
-            "size" | "rsize" => Some(m.len().to_string()),
-            "cap" | "rcap" => Some(dp.cap.to_string()),
-            "full" | "rfull" => Some((m.len() >= dp.cap).to_string()),
-            "empty" | "rempty" => Some(m.is_empty().to_string()),
+            "size" | "rsize" => Some(msize.to_string()),
+            "cap" | "rcap" => Some(mcap.to_string()),
+            "full" | "rfull" => Some((msize >= mcap).to_string()),
+            "empty" | "rempty" => Some((msize == 0).to_string()),
             "fill" => {
                 let mut n = 0usize;
-                while n < dp.cap - m.len() && (n as i128) < op.args[1] && !m.contains(&(op.args[0] + n as i128)) {
+                while n < mcap.saturating_sub(msize) && (n as i128) < op.args[1] && !m.contains(&(op.args[0] + n as i128)) {
                     n += 1;
                 }
                 Some(n.to_string())
@@ -302,24 +331,24 @@ impl<A: HApi> Sut for HSut<A> {
             }
             _ => None,
         };
-        let prop = if op.name == "fill" { "C07" } else { "C02" };
         if let Some(e) = expected {
             if e != out.result {
                 f.push(Finding { property: prop, what: format!("`{}` returned {} but the reference set gives {}", op.text(), out.result, e) });
             }
         }
-        if op.name == "iter" {
-            let mut got: Vec<i128> = out.result.trim_matches(|c| c == '[' || c == ']').split(',').filter(|s| !s.is_empty()).map(|s| s.parse().unwrap()).collect();
-            got.sort();
-            let want: Vec<i128> = m.iter().copied().collect();
-            if got != want {
-                f.push(Finding { property: "C02", what: format!("iteration yields {:?} but the members are {:?}", got, want) });
-            }
-        }
         if op.name != "init" && q != exp {
-            f.push(Finding { property: "C02", what: format!("after `{}` members are {:?}, the reference set has {:?}", op.text(), q, exp) });
+            f.push(Finding { property: "C02", what: format!("after `{}` contains() reports the members {:?}, the reference set has {:?}", op.text(), q, exp) });
         }
-        // C10: a live value never moves to another record
+        if op.name != "init" && qsize != exp.len() {
+            f.push(Finding { property: "C02", what: format!("after `{}` size() is {} but the reference set has {} members", op.text(), qsize, exp.len()) });
+        }
+        // iteration yields every member exactly once and nothing else
+        let mut sorted = items.clone();
+        sorted.sort();
+        let want: Vec<i128> = q.iter().copied().collect();
+        if op.name != "init" && sorted != want {
+            f.push(Finding { property: "C02", what: format!("after `{}` iteration yields {:?} but the members are {:?}", op.text(), items, want) });
+        }
         f
     }
     fn classify(&self, pre: &[u8], op: &Op, out: &OpOut, _post: &[u8]) -> Vec<&'static str> {
